@@ -1,10 +1,12 @@
-(* The inductive step of the simulation (Proofs/C01/Sim.v), one lemma per
-   construct of the fragment. *)
+(* The inductive step of the simulation: from SimAll at every level up to n to
+   SimAll (S n).  The per-construct work is in SimDone.v (outcome ODone) and
+   SimRestart.v (outcome ORestart); here are apply, expression bodies, and the
+   assembly. *)
 From Coq Require Import ZArith NArith List Bool Arith Lia.
 From GV Require Import Base.Result Base.Host Gen.Instr Gen.Exec Model.Num Model.Value Model.Machine
   Model.CompileExpr Spec.Ast Spec.Eval
-  Proofs.C01.MachineFacts Proofs.C01.Sizes Proofs.C01.Placement Proofs.C01.OpRefine Proofs.C01.Fragment
-  Proofs.C01.Steps Proofs.C01.Sim.
+  Proofs.C01.MachineFacts Proofs.C01.Sizes Proofs.C01.Placement Proofs.C01.Labels Proofs.C01.OpRefine Proofs.C01.Fragment
+  Proofs.C01.Steps Proofs.C01.ApplySteps Proofs.C01.Sim Proofs.C01.NoRestart Proofs.C01.SimDone Proofs.C01.SimRestart.
 Import ListNotations.
 
 Section SimStep.
@@ -22,626 +24,239 @@ Notation J := (jt P).
 Notation eval := (eval sym_hash hstate host pbodies).
 Notation eval_items := (eval_items sym_hash hstate host pbodies).
 Notation eval_chain := (eval_chain sym_hash hstate host pbodies).
-Notation placed := (placed sym_hash C J).
-Notation placedC := (placedC sym_hash C J).
+Notation apply_val := (apply_val sym_hash hstate host pbodies).
+Notation run_body := (run_body sym_hash hstate host pbodies).
+Notation lplaced := (lplaced sym_hash C J).
+Notation lplacedC := (lplacedC sym_hash C J).
 Notation est := (st hstate).
 Notation SimEval := (SimEval sym_hash hstate host pbodies P).
 Notation SimItems := (SimItems sym_hash hstate host pbodies P).
 Notation SimChain := (SimChain sym_hash hstate host pbodies P).
+Notation SimApply := (SimApply sym_hash hstate host pbodies P).
+Notation SimBody := (SimBody sym_hash hstate host pbodies P).
+Notation SimAll := (SimAll sym_hash hstate host pbodies P).
 
-Lemma placed_atom : forall cont e pc j ob jb,
-  is_atom e = true \/ (exists n, e = ELit (LProp n)) ->
-  placed cont None e pc j ob jb -> nth_error C pc = Some (atom_instr sym_hash e).
-Proof.
-  intros cont e pc j ob jb Ha H. unfold Placement.placed, comp in H.
-  destruct e; try (destruct Ha as [Ha | [n Ha]]; discriminate);
-    cbn [compC to_frag of_frag f_inl c_inl] in H; destruct H as (A & _); apply code_at_one in A; exact A.
-Qed.
-
-Lemma sizes_atom : forall lk e, (is_atom e = true \/ exists n, e = ELit (LProp n)) -> si (sizes lk e) = 1.
-Proof. intros lk e [H | [n H]]; destruct e; try discriminate; reflexivity. Qed.
-
-Lemma nth_lt : forall A (l : list A) k x, nth_error l k = Some x -> k < length l.
-Proof. intros. apply nth_error_Some. congruence. Qed.
-
-(* ---- every expression has inline code ---- *)
-Lemma ci_pos : forall e ic lk, 1 <= ci (sizesC ic lk e).
-Proof.
-  induction e; intros ic lk; cbn [sizesC]; cbn [to_sz of_sz sz_leaf si so sji sjo ci cji cao cajo cio cijo cn];
-    try lia.
-  - specialize (IHe1 false (Some k)). lia.
-  - apply IHe.
-  - specialize (IHe1 false None). destruct ic; cbn [ci of_sz si]; lia.
-  - specialize (IHe1 true None). destruct ic; cbn [ci of_sz si]; lia.
-Qed.
-Lemma si_pos : forall lk e, 1 <= si (sizes lk e).
-Proof. intros. unfold sizes. cbn [to_sz si]. apply ci_pos. Qed.
-
-Lemma placed_start_lt : forall cont lk e pc j ob jb, placed cont lk e pc j ob jb -> pc < length C.
-Proof.
-  intros cont lk e pc j ob jb (A & _).
-  pose proof (comp_sizes sym_hash e cont lk pc j ob jb) as (L & _).
-  pose proof (si_pos lk e) as Hp.
-  destruct (f_inl (comp sym_hash cont lk e pc j ob jb)) as [|x l] eqn:Hf.
-  - cbn [length] in L. lia.
-  - specialize (A 0 x eq_refl). rewrite Nat.add_0_r in A. eapply nth_lt; eauto.
-Qed.
+Hypothesis Hbodies : bodies_ok sym_hash pbodies P.
 
 Variable n : nat.
-Hypothesis IH : forall m, m <= n -> SimEval m /\ SimItems m /\ SimChain m.
-Let IHe : SimEval n := proj1 (IH n (le_n n)).
-Let IHi : SimItems n := proj1 (proj2 (IH n (le_n n))).
-Let IHc : SimChain n := proj2 (proj2 (IH n (le_n n))).
+Hypothesis IH : forall m, m <= n -> SimAll m.
 
-Ltac inv_obind H :=
-  let a := fresh "a" in let s1 := fresh "s1" in let E := fresh "E" in
-  apply obind_done in H; destruct H as (a & s1 & E & H).
+(* the induction hypotheses in the forms SimDone / SimRestart use, for one enclosing body *)
+Section Cont.
+Variable cont pcont : nat.
+Hypothesis Hcj : nth_error J cont = Some pcont.
+Hypothesis Hcp : pcont < length C.
 
-Ltac inv_as H a s1 E :=
-  apply obind_done in H; destruct H as (a & s1 & E & H).
-Ltac bools :=
-  repeat match goal with
-         | H : _ && _ = true |- _ => apply andb_prop in H; destruct H
-         end.
-Ltac and2 H a b := apply andb_prop in H; destruct H as [a b].
-Ltac and3 H a b c := apply andb_prop in H; destruct H as [H c]; apply andb_prop in H; destruct H as [a b].
-Ltac and4 H a b c d := apply andb_prop in H; destruct H as [H d]; and3 H a b c.
-
-(* ---- leaves ---- *)
-Lemma sim_leaf : forall e, (match e with ELit _ | EValue | EIdent _ => True | _ => False end) ->
-  forall vin (s : est) v s',
-  eval (S n) e vin s = ODone v s' ->
-  forall cont pc j ob jb sg vs fs mt,
-  placed cont None e pc j ob jb ->
-  pc + si (sizes None e) < length C ->
-  observable mt = snd s ->
+Lemma ihd : forall m, m <= n -> forall e vin (s : est) v s',
+  eval m e vin s = ODone v s' ->
+  frag e = true -> shape_ok e = true -> forall b, seq_ok b e = true ->
+  forall pc j ob jb sg vs fs mt,
+  lplaced cont None e pc j ob jb -> pc + si (sizes None e) < length C -> observable mt = snd s ->
   exists vin' mt',
-    star (St pc sg (vin :: vs) fs (fst s) mt)
-         (St (pc + si (sizes None e)) (v :: sg) (vin' :: vs) fs (fst s') mt') /\
+    star (St pc sg (vin :: vs) fs (fst s) mt) (St (pc + si (sizes None e)) (v :: sg) (vin' :: vs) fs (fst s') mt') /\
     observable mt' = snd s' /\ (is_seq e = false -> vin' = vin).
 Proof.
-  intros e He vin s v s' H cont pc j ob jb sg vs fs mt Hp Hl Ho.
-  destruct e; try contradiction; cbn [Eval.eval] in H.
-  - (* literal *)
-    injection H as <- <-.
-    assert (Hn : nth_error C pc = Some (I_Put, MVal (lit_val sym_hash l))).
-    { unfold Placement.placed, comp in Hp. cbn [compC to_frag of_frag f_inl c_inl] in Hp.
-      destruct Hp as (A & _). apply code_at_one in A. exact A. }
-    cbn [sizes sizesC to_sz of_sz sz_leaf si ci] in *. replace (pc + 1) with (S pc) in * by lia.
-    exists vin, mt. split; [|split; auto].
-    apply star_one. apply step_put; auto.
-  - (* $ *)
-    injection H as <- <-.
-    assert (Hn : nth_error C pc = Some (ins I_PutValue)).
-    { unfold Placement.placed, comp in Hp. cbn [compC to_frag of_frag f_inl c_inl] in Hp.
-      destruct Hp as (A & _). apply code_at_one in A. exact A. }
-    cbn [sizes sizesC to_sz of_sz sz_leaf si ci] in *. replace (pc + 1) with (S pc) in * by lia.
-    exists vin, mt. split; [|split; auto].
-    apply star_one. apply step_put_value; auto.
-  - (* identifier *)
-    assert (Hn : nth_error C pc = Some (I_Resolve, MVal (VSym (sym_hash name)))).
-    { unfold Placement.placed, comp in Hp. cbn [compC to_frag of_frag f_inl c_inl] in Hp.
-      destruct Hp as (A & _). apply code_at_one in A. exact A. }
-    cbn [sizes sizesC to_sz of_sz sz_leaf si ci] in *. replace (pc + 1) with (S pc) in * by lia.
-    destruct (step_resolve hstate host P sym_hash name vin v s s' pc sg vs fs mt H Hn Hl Ho) as [mt' [Hs Ho']].
-    exists vin, mt'. split; [|split; auto].
-    apply star_one. exact Hs.
+  intros m Hm e vin s v s' E Hf Hsh b Hsq pc j ob jb sg vs fs mt Hp Hl Ho.
+  destruct (IH m Hm) as (HE & _).
+  exact (HE e vin s (ODone v s') E Hf Hsh b Hsq cont pcont pc j ob jb sg vs fs mt Hp Hcj Hcp Hl Ho).
 Qed.
 
-Definition Goal_eval (e : expr) : Prop :=
-  forall vin (s : est) v s',
-  eval (S n) e vin s = ODone v s' ->
-  frag e = true -> shape_ok e = true ->
-  forall b, seq_ok b e = true ->
-  forall cont pc j ob jb sg vs fs mt,
-  placed cont None e pc j ob jb ->
-  pc + si (sizes None e) < length C ->
-  observable mt = snd s ->
-  exists vin' mt',
+Lemma ihr : forall m, m <= n -> forall e vin (s : est) v s',
+  eval m e vin s = ORestart v s' ->
+  frag e = true -> shape_ok e = true -> forall b, seq_ok b e = true ->
+  forall pc j ob jb sg vs fs mt,
+  lplaced cont None e pc j ob jb -> pc + si (sizes None e) < length C -> observable mt = snd s ->
+  Restarted hstate host P pcont pc sg vin vs fs s mt v s'.
+Proof.
+  intros m Hm e vin s v s' E Hf Hsh b Hsq pc j ob jb sg vs fs mt Hp Hl Ho.
+  destruct (IH m Hm) as (HE & _).
+  exact (HE e vin s (ORestart v s') E Hf Hsh b Hsq cont pcont pc j ob jb sg vs fs mt Hp Hcj Hcp Hl Ho).
+Qed.
+
+Lemma ihid : forall m, m <= n -> forall k e vin (s : est) items s',
+  eval_items m k e vin s = ODone items s' ->
+  frag e = true -> shape_ok e = true -> seq_ok false e = true ->
+  forall pc j ob jb sg vs fs mt,
+  lplaced cont (Some k) e pc j ob jb -> pc + si (sizes (Some k) e) < length C -> observable mt = snd s ->
+  exists mt',
     star (St pc sg (vin :: vs) fs (fst s) mt)
-         (St (pc + si (sizes None e)) (v :: sg) (vin' :: vs) fs (fst s') mt') /\
-    observable mt' = snd s' /\ (is_seq e = false -> vin' = vin).
-
-Ltac size_simpl :=
-  cbn [sizes sizesC to_sz of_sz sz_leaf si so sji sjo ci cji cao cajo cio cijo cn] in *;
-  fold (sizes None) in *.
-
-(* ---- unary operators ---- *)
-Lemma sim_un : forall o x, Goal_eval (EUn o x).
+         (St (pc + si (sizes (Some k) e)) (rev items ++ sg) (vin :: vs) fs (fst s') mt') /\
+    observable mt' = snd s' /\ length items = leaves k e.
 Proof.
-  intros o x vin s v s' H Hf Hsh b Hsq cont pc j ob jb sg vs fs mt Hp Hl Ho.
-  cbn [frag shape_okC seq_ok] in *. and2 Hf H0 H1.
-  destruct (placed_EUn sym_hash C J cont None o x pc j ob jb Hp) as (Px & Hn).
-  assert (Hsz : si (sizes None (EUn o x)) = si (sizes None x) + 1) by reflexivity.
-  rewrite Hsz in *.
-  assert (Hv : exists a s1, eval n x vin s = ODone a s1 /\ prim_unop o a = Some v /\ s1 = s').
-  { destruct o; try discriminate; cbn [Eval.eval] in H; inv_obind H;
-      (destruct (prim_unop _ a) eqn:Hpu; [injection H as <- <-; eauto | discriminate]). }
-  destruct Hv as (a & s1 & E & Hpu & ->).
-  destruct (IHe x vin s a s' E H1 Hsh false Hsq cont pc j ob jb sg vs fs mt Px (nth_lt _ _ _ _ Hn) Ho)
-    as (vin' & mt1 & St1 & Ho1 & Hv1).
-  rewrite (Hv1 (seq_ok_false_noseq _ Hsq)) in St1.
-  replace (pc + (si (sizes None x) + 1)) with (S (pc + si (sizes None x))) in * by lia.
-  destruct (step_unop hstate host Hdef P o a v (pc + si (sizes None x)) sg (vin :: vs) fs (fst s') mt1 H0 Hpu Hn Hl)
-    as (mt2 & Hs2 & Ho2).
-  exists vin, mt2. split; [|split; [congruence | auto]].
-  eapply star_trans; [exact St1 | apply star_one; exact Hs2].
+  intros m Hm k e vin s items s' E Hf Hsh Hsq pc j ob jb sg vs fs mt Hp Hl Ho.
+  destruct (IH m Hm) as (_ & HI & _).
+  exact (HI k e vin s (ODone items s') E Hf Hsh Hsq cont pcont pc j ob jb sg vs fs mt Hp Hcj Hcp Hl Ho).
 Qed.
 
-(* ---- strict binary operators (left operand first) ---- *)
-Lemma sim_bin : forall o l r, o <> BPair -> Goal_eval (EBin o l r).
+Lemma ihir : forall m, m <= n -> forall k e vin (s : est) v s',
+  eval_items m k e vin s = ORestart v s' ->
+  frag e = true -> shape_ok e = true -> seq_ok false e = true ->
+  forall pc j ob jb sg vs fs mt,
+  lplaced cont (Some k) e pc j ob jb -> pc + si (sizes (Some k) e) < length C -> observable mt = snd s ->
+  Restarted hstate host P pcont pc sg vin vs fs s mt v s'.
 Proof.
-  intros o l r Hnp vin s v s' H Hf Hsh b Hsq cont pc j ob jb sg vs fs mt Hp Hl Ho.
-  cbn [frag shape_okC seq_ok] in *. and3 Hf Hso Hfl Hfr. and2 Hsh Hshl Hshr. and2 Hsq Hsql Hsqr.
-  assert (Hrf : right_first o = false) by (destruct o; try reflexivity; try discriminate; congruence).
-  destruct (placed_EBin_lr sym_hash C J cont None o l r pc j ob jb Hrf Hp) as (Pl & Pr & Hn).
-  assert (Hsz : si (sizes None (EBin o l r)) = si (sizes None l) + si (sizes None r) + 1) by reflexivity.
-  rewrite Hsz in *.
-  assert (Hv : exists vl s1 vr w, eval n l vin s = ODone vl s1 /\ eval n r vin s1 = ODone vr s' /\
-                                   prim_binop o vl vr = (Some v, w)).
-  { destruct o; try discriminate; try congruence; cbn [Eval.eval] in H;
-      inv_obind H; inv_obind H; unfold lift in H;
-      match type of H with context [prim_binop ?o ?x ?y] => destruct (prim_binop o x y) as [[r0|] w] eqn:Hpb end;
-      try discriminate; injection H as <- <-; eauto 10. }
-  destruct Hv as (vl & s1 & vr & w & El & Er & Hpb).
-  assert (Hl1 : pc + si (sizes None l) < length C).
-  { apply nth_lt in Hn. lia. }
-  destruct (IHe l vin s vl s1 El Hfl Hshl false Hsql cont pc j _ _ sg vs fs mt Pl Hl1 Ho)
-    as (vin1 & mt1 & St1 & Ho1 & Hv1).
-  rewrite (Hv1 (seq_ok_false_noseq _ Hsql)) in St1.
-  destruct (IHe r vin s1 vr s' Er Hfr Hshr false Hsqr cont _ _ ob jb (vl :: sg) vs fs mt1 Pr (nth_lt _ _ _ _ Hn) Ho1)
-    as (vin2 & mt2 & St2 & Ho2 & Hv2).
-  rewrite (Hv2 (seq_ok_false_noseq _ Hsqr)) in St2.
-  replace (pc + (si (sizes None l) + si (sizes None r) + 1)) with (S (pc + si (sizes None l) + si (sizes None r))) in * by lia.
-  destruct (step_binop hstate host Hdef P o vl vr v w (pc + si (sizes None l) + si (sizes None r)) sg (vin :: vs) fs (fst s') mt2 Hso Hnp Hpb Hn Hl)
-    as (mt3 & Hs3 & Ho3).
-  exists vin, mt3. split; [|split; [congruence | auto]].
-  eapply star_trans; [exact St1|]. eapply star_trans; [exact St2|]. apply star_one; exact Hs3.
+  intros m Hm k e vin s v s' E Hf Hsh Hsq pc j ob jb sg vs fs mt Hp Hl Ho.
+  destruct (IH m Hm) as (_ & HI & _).
+  exact (HI k e vin s (ORestart v s') E Hf Hsh Hsq cont pcont pc j ob jb sg vs fs mt Hp Hcj Hcp Hl Ho).
 Qed.
 
-(* ---- pair: the right operand first ---- *)
-Lemma sim_pair : forall l r, Goal_eval (EBin BPair l r).
+Lemma ihcd : forall m, m <= n -> forall e vin (s : est) o s',
+  eval_chain m e vin s = ODone o s' ->
+  lchain e = true -> frag e = true -> shape_okC true e = true -> seq_ok false e = true ->
+  forall pc j aob ajb ob jb jj pjoin sg vs fs mt,
+  lplacedC true cont None e pc j aob ajb ob jb jj ->
+  nth_error J jj = Some pjoin -> pjoin < length C -> pc + ci (csizes e) < length C -> observable mt = snd s ->
+  exists mt', observable mt' = snd s' /\
+    match o with
+    | None => star (St pc sg (vin :: vs) fs (fst s) mt) (St (pc + ci (csizes e)) sg (vin :: vs) fs (fst s') mt')
+    | Some v => star (St pc sg (vin :: vs) fs (fst s) mt) (St pjoin (v :: sg) (vin :: vs) fs (fst s') mt')
+    end.
 Proof.
-  intros l r vin s v s' H Hf Hsh b Hsq cont pc j ob jb sg vs fs mt Hp Hl Ho.
-  cbn [frag shape_okC seq_ok bin_supported andb] in *. and2 Hf Hfl Hfr. and2 Hsh Hshl Hshr. and2 Hsq Hsql Hsqr.
-  destruct (placed_EBin_rl sym_hash C J cont None BPair l r pc j ob jb eq_refl Hp) as (Pr & Pl & Hn).
-  assert (Hsz : si (sizes None (EBin BPair l r)) = si (sizes None l) + si (sizes None r) + 1) by reflexivity.
-  rewrite Hsz in *.
-  cbn [Eval.eval] in H. inv_as H vr s1 E. inv_as H vl s2 E0. injection H as <- ->.
-  assert (Hl1 : pc + si (sizes None r) < length C).
-  { apply nth_lt in Hn. lia. }
-  destruct (IHe r vin s vr s1 E Hfr Hshr false Hsqr cont pc j _ _ sg vs fs mt Pr Hl1 Ho)
-    as (vin1 & mt1 & St1 & Ho1 & Hv1).
-  rewrite (Hv1 (seq_ok_false_noseq _ Hsqr)) in St1.
-  destruct (IHe l vin s1 vl s' E0 Hfl Hshl false Hsql cont _ _ ob jb (vr :: sg) vs fs mt1 Pl (nth_lt _ _ _ _ Hn) Ho1)
-    as (vin2 & mt2 & St2 & Ho2 & Hv2).
-  rewrite (Hv2 (seq_ok_false_noseq _ Hsql)) in St2.
-  replace (pc + (si (sizes None l) + si (sizes None r) + 1)) with (S (pc + si (sizes None r) + si (sizes None l))) in * by lia.
-  exists vin, mt2. split; [|split; auto].
-  eapply star_trans; [exact St1|]. eapply star_trans; [exact St2|]. apply star_one.
-  apply step_pair; auto.
+  intros m Hm e vin s o s' E Hlc Hf Hsh Hsq pc j aob ajb ob jb jj pjoin sg vs fs mt Hp Hj Hpj Hl Ho.
+  destruct (IH m Hm) as (_ & _ & HC & _).
+  pose proof (HC e vin s (ODone o s') E Hlc Hf Hsh Hsq cont pcont pc j aob ajb ob jb jj pjoin sg vs fs mt Hp Hcj Hcp Hj Hpj Hl Ho) as R.
+  destruct o; exact R.
 Qed.
 
-(* ---- group ---- *)
-Lemma sim_group : forall x, Goal_eval (EGroup x).
+Lemma ihcr : forall m, m <= n -> forall e vin (s : est) v s',
+  eval_chain m e vin s = ORestart v s' ->
+  lchain e = true -> frag e = true -> shape_okC true e = true -> seq_ok false e = true ->
+  forall pc j aob ajb ob jb jj pjoin sg vs fs mt,
+  lplacedC true cont None e pc j aob ajb ob jb jj ->
+  nth_error J jj = Some pjoin -> pjoin < length C -> pc + ci (csizes e) < length C -> observable mt = snd s ->
+  Restarted hstate host P pcont pc sg vin vs fs s mt v s'.
 Proof.
-  intros x vin s v s' H Hf Hsh b Hsq cont pc j ob jb sg vs fs mt Hp Hl Ho.
-  cbn [frag shape_okC seq_ok] in *. cbn [Eval.eval] in H.
-  pose proof (placed_EGroup sym_hash C J cont None x pc j ob jb Hp) as Px.
-  assert (Hsz : si (sizes None (EGroup x)) = si (sizes None x)) by reflexivity.
-  rewrite Hsz in *.
-  destruct (IHe x vin s v s' H Hf Hsh false Hsq cont pc j ob jb sg vs fs mt Px Hl Ho)
-    as (vin1 & mt1 & St1 & Ho1 & Hv1).
-  exists vin1, mt1. split; [exact St1 | split; auto].
-  intros _. apply Hv1. apply seq_ok_false_noseq; auto.
+  intros m Hm e vin s v s' E Hlc Hf Hsh Hsq pc j aob ajb ob jb jj pjoin sg vs fs mt Hp Hj Hpj Hl Ho.
+  destruct (IH m Hm) as (_ & _ & HC & _).
+  exact (HC e vin s (ORestart v s') E Hlc Hf Hsh Hsq cont pcont pc j aob ajb ob jb jj pjoin sg vs fs mt Hp Hcj Hcp Hj Hpj Hl Ho).
 Qed.
 
-(* ---- sub-expression sequence ---- *)
-Lemma sim_seq : forall sp l r, Goal_eval (ESeq sp l r).
+Lemma ihad : forall f x (s : est) v s',
+  apply_val n f x s = ODone v s' ->
+  forall (ea : bool) pcx sg vs fs mt,
+  (ea = true -> x = VUnit) ->
+  nth_error C pcx = Some (ins (if ea then I_EmptyApply else I_Apply)) -> S pcx < length C ->
+  observable mt = snd s ->
+  exists mt',
+    star (St pcx (if ea then f :: sg else x :: f :: sg) vs fs (fst s) mt) (St (S pcx) (v :: sg) vs fs (fst s') mt') /\
+    observable mt' = snd s'.
 Proof.
-  intros sp l r vin s v s' H Hf Hsh b Hsq cont pc j ob jb sg vs fs mt Hp Hl Ho.
-  cbn [frag shape_okC seq_ok] in *. and2 Hf Hfl Hfr. and2 Hsh Hshl Hshr. and3 Hsq Hb Hsql Hsqr.
-  destruct (placed_ESeq sym_hash C J cont None sp l r pc j ob jb Hp) as (Pl & Pr & Hn).
-  assert (Hsz : si (sizes None (ESeq sp l r)) = si (sizes None l) + 1 + si (sizes None r)) by reflexivity.
-  rewrite Hsz in *.
-  cbn [Eval.eval] in H. inv_as H vl s1 E.
-  destruct (IHe l vin s vl s1 E Hfl Hshl true Hsql cont pc j _ _ sg vs fs mt Pl (nth_lt _ _ _ _ Hn) Ho)
-    as (vin1 & mt1 & St1 & Ho1 & Hv1).
-  assert (Hs2 : Machine.step hstate host P (St (pc + si (sizes None l)) (vl :: sg) (vin1 :: vs) fs (fst s1) mt1) =
-                SRun hstate (St (S (pc + si (sizes None l))) sg (vl :: vs) fs (fst s1) mt1)).
-  { apply step_update_value; auto. lia. }
-  replace (pc + (si (sizes None l) + 1 + si (sizes None r))) with (pc + si (sizes None l) + 1 + si (sizes None r)) in * by lia.
-  destruct (IHe r vl s1 v s' H Hfr Hshr true Hsqr cont _ _ ob jb sg vs fs mt1 Pr Hl Ho1)
-    as (vin2 & mt2 & St2 & Ho2 & Hv2).
-  exists vin2, mt2. split; [|split; [auto | intros; discriminate]].
-  eapply star_trans; [exact St1|]. eapply star_step; [exact Hs2|].
-  replace (S (pc + si (sizes None l))) with (pc + si (sizes None l) + 1) by lia. exact St2.
+  destruct (IH n (le_n n)) as (_ & _ & _ & HA & _). exact HA.
 Qed.
 
-(* ---- side-effect block ---- *)
-Lemma sim_side : forall a sd, Goal_eval (ESide a sd).
-Proof.
-  intros a sd vin s v s' H Hf Hsh b Hsq cont pc j ob jb sg vs fs mt Hp Hl Ho.
-  cbn [frag shape_okC seq_ok] in *. and2 Hf Hfl Hfr. and2 Hsh Hshl Hshr. and2 Hsq Hsql Hsqr.
-  destruct (placed_ESide sym_hash C J cont None a sd pc j ob jb Hp) as (Pa & Ps & Hn1 & Hn2).
-  assert (Hsz : si (sizes None (ESide a sd)) = si (sizes None a) + 1 + si (sizes None sd) + 1) by reflexivity.
-  rewrite Hsz in *.
-  cbn [Eval.eval] in H. inv_as H va s1 E. inv_as H vsd s2 E0. injection H as <- ->.
-  destruct (IHe a vin s va s1 E Hfl Hshl false Hsql cont pc j _ _ sg vs fs mt Pa (nth_lt _ _ _ _ Hn1) Ho)
-    as (vin1 & mt1 & St1 & Ho1 & Hv1).
-  rewrite (Hv1 (seq_ok_false_noseq _ Hsql)) in St1.
-  assert (Hs2 : Machine.step hstate host P (St (pc + si (sizes None a)) (va :: sg) (vin :: vs) fs (fst s1) mt1) =
-                SRun hstate (St (S (pc + si (sizes None a))) (va :: sg) (vin :: vin :: vs) fs (fst s1) mt1)).
-  { apply step_start_side; auto. apply nth_lt in Hn2. lia. }
-  destruct (IHe sd vin s1 vsd s' E0 Hfr Hshr true Hsqr cont _ _ ob jb (va :: sg) (vin :: vs) fs mt1 Ps (nth_lt _ _ _ _ Hn2) Ho1)
-    as (vin2 & mt2 & St2 & Ho2 & Hv2).
-  assert (Hs3 : Machine.step hstate host P (St (pc + si (sizes None a) + 1 + si (sizes None sd)) (vsd :: va :: sg) (vin2 :: vin :: vs) fs (fst s') mt2) =
-                SRun hstate (St (S (pc + si (sizes None a) + 1 + si (sizes None sd))) (va :: sg) (vin :: vs) fs (fst s') mt2)).
-  { apply step_end_side; auto. lia. }
-  exists vin, mt2. split; [|split; auto].
-  eapply star_trans; [exact St1|]. eapply star_step; [exact Hs2|].
-  replace (S (pc + si (sizes None a))) with (pc + si (sizes None a) + 1) by lia.
-  eapply star_trans; [exact St2|]. eapply star_step; [exact Hs3|].
-  replace (S (pc + si (sizes None a) + 1 + si (sizes None sd))) with (pc + (si (sizes None a) + 1 + si (sizes None sd) + 1)) by lia.
-  apply star_refl.
-Qed.
+End Cont.
 
-(* ---- && and || ---- *)
-Lemma sim_logical : forall (is_and : bool) l r, Goal_eval (if is_and then EAnd l r else EOr l r).
-Proof.
-  intros is_and l r vin s v s' H Hf Hsh b Hsq cont pc j ob jb sg vs fs mt Hp Hl Ho.
-  assert (Hf' : frag l = true /\ frag r = true) by (destruct is_and; cbn [frag] in Hf; apply andb_prop in Hf; exact Hf).
-  assert (Hsh' : shape_ok l = true /\ shape_ok r = true) by (destruct is_and; cbn [shape_ok] in Hsh; apply andb_prop in Hsh; exact Hsh).
-  assert (Hsq' : seq_ok false l = true /\ seq_ok false r = true) by (destruct is_and; cbn [seq_ok] in Hsq; apply andb_prop in Hsq; exact Hsq).
-  destruct Hf' as [Hfl Hfr]. destruct Hsh' as [Hshl Hshr]. destruct Hsq' as [Hsql Hsqr].
-  destruct (placed_logical sym_hash C J is_and cont None l r pc j ob jb Hp) as (Pl & Pr & Hn & Hj1 & Hj2 & Htail).
-  assert (Hsz : si (sizes None (if is_and then EAnd l r else EOr l r)) = si (sizes None l) + 1)
-    by (destruct is_and; reflexivity).
-  rewrite Hsz in *. assert (Hnoseq : is_seq (if is_and then EAnd l r else EOr l r) = false) by (destruct is_and; reflexivity).
-  (* the evaluator *)
-  assert (Hev : exists vl s1, eval n l vin s = ODone vl s1 /\
-            if Bool.eqb (truthy vl) is_and
-            then exists vr, eval n r vin s1 = ODone vr s' /\ v = vbool (truthy vr)
-            else v = vbool (negb is_and) /\ s' = s1).
-  { destruct is_and; cbn [Eval.eval] in H; inv_as H vl s1 E; exists vl, s1; (split; [exact E|]);
-      destruct (truthy vl); cbn [Bool.eqb negb].
-    - inv_as H vr s2 E2. injection H as <- <-. eauto.
-    - injection H as <- <-. auto.
-    - injection H as <- <-. auto.
-    - inv_as H vr s2 E2. injection H as <- <-. eauto. }
-  destruct Hev as (vl & s1 & El & Hrest).
-  destruct (IHe l vin s vl s1 El Hfl Hshl false Hsql cont pc j _ _ sg vs fs mt Pl (nth_lt _ _ _ _ Hn) Ho)
-    as (vin1 & mt1 & St1 & Ho1 & Hv1).
-  rewrite (Hv1 (seq_ok_false_noseq _ Hsql)) in St1.
-  replace (pc + (si (sizes None l) + 1)) with (S (pc + si (sizes None l))) in * by lia.
-  pose proof (placed_start_lt _ _ _ _ _ _ _ Pr) as Hob.
-  (* the And / Or step *)
-  assert (Hstep : Machine.step hstate host P (St (pc + si (sizes None l)) (vl :: sg) (vin :: vs) fs (fst s1) mt1) =
-          SRun hstate (if Bool.eqb (truthy vl) is_and then St ob sg (vin :: vs) fs (fst s1) mt1
-                       else St (S (pc + si (sizes None l))) (vbool (negb is_and) :: sg) (vin :: vs) fs (fst s1) mt1)).
-  { destruct is_and.
-    - rewrite (step_and hstate host P _ _ ob vl sg (vin :: vs) fs (fst s1) mt1 Hn Hj1 Hob Hl).
-      destruct (truthy vl); reflexivity.
-    - rewrite (step_or hstate host P _ _ ob vl sg (vin :: vs) fs (fst s1) mt1 Hn Hj1 Hob Hl).
-      destruct (truthy vl); reflexivity. }
-  destruct (Bool.eqb (truthy vl) is_and).
-  - (* the right operand is evaluated *)
-    destruct Hrest as (vr & Er & ->).
-    assert (Hlr : ob + si (sizes None r) < length C).
-    { unfold logical_tail in Htail. apply code_at_cons in Htail. destruct Htail as [T1 _].
-      apply nth_lt in T1. exact T1. }
-    destruct (IHe r vin s1 vr s' Er Hfr Hshr false Hsqr cont ob jb _ _ sg vs fs mt1 Pr Hlr Ho1)
-      as (vin2 & mt2 & St2 & Ho2 & Hv2).
-    rewrite (Hv2 (seq_ok_false_noseq _ Hsqr)) in St2.
-    exists vin, mt2. split; [|split; auto].
-    eapply star_trans; [exact St1|]. eapply star_step; [exact Hstep|].
-    eapply star_trans; [exact St2|].
-    unfold logical_tail in Htail. apply code_at_cons in Htail. destruct Htail as [T1 T2]. apply code_at_one in T2.
-    eapply star_step.
-    + apply step_tis; eauto. apply nth_lt in T2. exact T2.
-    + apply star_one.
-      replace (S (pc + si (sizes None l))) with (pc + si (sizes None l) + 1) in * by lia.
-      apply step_jump_to with (j := j + sji (sizes None l) + 1); auto.
-  - destruct Hrest as [-> ->].
-    exists vin, mt1. split; [|split; auto].
-    eapply star_trans; [exact St1|]. apply star_one. exact Hstep.
-Qed.
-
-(* ---- a conditional on its own ---- *)
-Lemma sim_cond : forall neg c a, Goal_eval (ECond neg c a).
-Proof.
-  intros neg c a vin s v s' H Hf Hsh b Hsq cont pc j ob jb sg vs fs mt Hp Hl Ho.
-  cbn [frag shape_okC seq_ok] in *. and2 Hf Hfc Hfa. and2 Hsh Hshc Hsha. and2 Hsq Hsqc Hsqa.
-  destruct (placed_ECond sym_hash C J cont None neg c a pc j ob jb Hp) as (Pc & Pa & Hn1 & Hn2 & Hj1 & Hj2 & Hn3).
-  assert (Hsz : si (sizes None (ECond neg c a)) = si (sizes None c) + 2) by reflexivity.
-  rewrite Hsz in *.
-  cbn [Eval.eval] in H. inv_as H vc s1 Ec.
-  destruct (IHe c vin s vc s1 Ec Hfc Hshc false Hsqc cont pc j _ _ sg vs fs mt Pc (nth_lt _ _ _ _ Hn1) Ho)
-    as (vin1 & mt1 & St1 & Ho1 & Hv1).
-  rewrite (Hv1 (seq_ok_false_noseq _ Hsqc)) in St1.
-  pose proof (placed_start_lt _ _ _ _ _ _ _ Pa) as Hob.
-  assert (Hstep : Machine.step hstate host P (St (pc + si (sizes None c)) (vc :: sg) (vin :: vs) fs (fst s1) mt1) =
-          SRun hstate (St (if cond_holds neg vc then ob else S (pc + si (sizes None c))) sg (vin :: vs) fs (fst s1) mt1)).
-  { apply step_jump_if with (j := j + sji (sizes None c)); auto. apply nth_lt in Hn2. lia. }
-  destruct (cond_holds neg vc).
-  - destruct (IHe a vin s1 v s' H Hfa Hsha false Hsqa cont ob jb _ _ sg vs fs mt1 Pa (nth_lt _ _ _ _ Hn3) Ho1)
-      as (vin2 & mt2 & St2 & Ho2 & Hv2).
-    rewrite (Hv2 (seq_ok_false_noseq _ Hsqa)) in St2.
-    exists vin, mt2. split; [|split; auto].
-    eapply star_trans; [exact St1|]. eapply star_step; [exact Hstep|].
-    eapply star_trans; [exact St2|]. apply star_one.
-    apply step_jump_to with (j := j + sji (sizes None c) + 1); auto.
-    rewrite Hj2. f_equal. lia.
-  - injection H as <- <-.
-    exists vin, mt1. split; [|split; auto].
-    eapply star_trans; [exact St1|]. eapply star_step; [exact Hstep|].
-    apply star_one.
-    replace (pc + (si (sizes None c) + 2)) with (S (S (pc + si (sizes None c)))) in * by lia.
-    apply step_put_value; auto.
-    replace (S (pc + si (sizes None c))) with (pc + si (sizes None c) + 1) by lia. exact Hn2.
-Qed.
-
-(* ---- lists ---- *)
-Lemma same_kind_refl : forall k, same_kind k k = true.
-Proof. destruct k; reflexivity. Qed.
-
-Lemma placed_list_ctx : forall cont k l r pc j ob jb,
-  placed cont None (EList k l r) pc j ob jb -> placed cont (Some k) (EList k l r) pc j ob jb.
-Proof.
-  intros cont k l r pc j ob jb H.
-  unfold Placement.placed, comp in *. cbn [compC] in *. cbv zeta in *.
-  cbn [in_list] in *. rewrite same_kind_refl.
-  cbn [to_frag of_frag f_inl f_ool f_ji f_jo c_inl c_ji c_iool c_ijo] in *.
-  destruct H as (A & B & E & F). repeat split; auto.
-  rewrite !app_assoc in A. apply code_at_app in A. destruct A as [A _].
-  rewrite app_nil_r. exact A.
-Qed.
-
-Lemma sim_list : forall k l r, Goal_eval (EList k l r).
-Proof.
-  intros k l r vin s v s' H Hf Hsh b Hsq cont pc j ob jb sg vs fs mt Hp Hl Ho.
-  cbn [Eval.eval] in H. inv_as H items s1 Ei. injection H as <- <-.
-  destruct (placed_EList sym_hash C J cont None k l r pc j ob jb Hp) as (_ & _ & Hmk).
-  specialize (Hmk eq_refl).
-  pose proof (placed_list_ctx _ _ _ _ _ _ _ _ Hp) as Pk.
-  assert (Hsz1 : si (sizes None (EList k l r)) = si (sizes (Some k) l) + si (sizes (Some k) r) + 1) by reflexivity.
-  assert (Hsz2 : si (sizes (Some k) (EList k l r)) = si (sizes (Some k) l) + si (sizes (Some k) r)).
-  { unfold sizes. cbn [sizesC in_list to_sz of_sz si ci]. rewrite same_kind_refl. lia. }
-  assert (Hsq' : seq_ok false (EList k l r) = true) by (cbn [seq_ok] in *; exact Hsq).
-  assert (Hl2 : pc + si (sizes (Some k) (EList k l r)) < length C) by (rewrite Hsz2; apply nth_lt in Hmk; lia).
-  destruct (IHi k (EList k l r) vin s items s1 Ei Hf Hsh Hsq' cont pc j ob jb sg vs fs mt Pk Hl2 Ho)
-    as (mt1 & St1 & Ho1 & Hlen).
-  rewrite Hsz1 in *. rewrite Hsz2 in *.
-  exists vin, mt1. split; [|split; auto].
-  eapply star_trans; [exact St1|]. apply star_one.
-  replace (pc + (si (sizes (Some k) l) + si (sizes (Some k) r) + 1)) with (S (pc + (si (sizes (Some k) l) + si (sizes (Some k) r)))) in * by lia.
-  apply step_make_list; auto.
-  rewrite Hlen. replace (pc + (si (sizes (Some k) l) + si (sizes (Some k) r))) with (pc + si (sizes (Some k) l) + si (sizes (Some k) r)) by lia.
-  exact Hmk.
-Qed.
-
-(* ---- list items ---- *)
-Lemma placed_lk : forall cont k e pc j ob jb,
-  is_list_of k e = false -> placed cont (Some k) e pc j ob jb -> placed cont None e pc j ob jb.
-Proof.
-  intros cont k e pc j ob jb Hn H. unfold Placement.placed, comp in *.
-  rewrite (compC_lk sym_hash e false cont k pc j 0 0 ob jb 0 Hn) in H. exact H.
-Qed.
-Lemma sizes_lk : forall k e, is_list_of k e = false -> sizes (Some k) e = sizes None e.
-Proof. intros. unfold sizes. rewrite sizesC_lk; auto. Qed.
-
-Lemma leaves_not_list : forall k e, is_list_of k e = false -> leaves k e = 1.
-Proof. intros k e H. destruct e; cbn in *; auto. destruct k, k0; cbn in *; auto; discriminate. Qed.
-
-Lemma sim_items_step : SimItems (S n).
-Proof.
-  intros k e vin s items s' H Hf Hsh Hsq cont pc j ob jb sg vs fs mt Hp Hl Ho.
-  destruct (is_list_of k e) eqn:Hlist.
-  - (* a list of the same kind: its items *)
-    destruct e; try discriminate.
-    assert (k0 = k) by (destruct k, k0; cbn in Hlist; auto; discriminate). subst k0.
-    cbn [frag shape_okC seq_ok] in *. and2 Hf Hfl Hfr. and3 Hsh Hnl Hshl Hshr. and2 Hsq Hsql Hsqr.
-    apply negb_true_iff in Hnl.
-    destruct (placed_EList sym_hash C J cont (Some k) k e1 e2 pc j ob jb Hp) as (Pl & Pr & _).
-    assert (Hsz : si (sizes (Some k) (EList k e1 e2)) = si (sizes (Some k) e1) + si (sizes (Some k) e2)).
-    { unfold sizes. cbn [sizesC in_list to_sz of_sz si ci]. rewrite same_kind_refl. lia. }
-    rewrite Hsz in *.
-    assert (Hev : exists ls s1 vr, (if is_list_of k e1 then eval_items n k e1 vin s = ODone ls s1
-                                    else exists v1, eval n e1 vin s = ODone v1 s1 /\ ls = [v1]) /\
-                                   eval n e2 vin s1 = ODone vr s' /\ items = ls ++ [vr]).
-    { cbn [Eval.eval_items] in H.
-      assert (Hk : match k, k with Space, Space | Comma, Comma => true | _, _ => false end = true) by (destruct k; reflexivity).
-      rewrite Hk in H. inv_as H ls s1 El. inv_as H vr s2 Er. injection H as <- <-.
-      exists ls, s1, vr. split; [|split; auto].
-      destruct (is_list_of k e1); auto. inv_as El v1 s0 E1. injection El as <- <-. eauto. }
-    destruct Hev as (ls & s1 & vr & Hls & Er & ->).
-    pose proof (placed_lk _ _ _ _ _ _ _ Hnl Pr) as Pr'.
-    rewrite (sizes_lk k e2 Hnl) in *.
-    assert (Hl1 : pc + si (sizes (Some k) e1) < length C).
-    { pose proof (placed_start_lt _ _ _ _ _ _ _ Pr'). lia. }
-    assert (Hleft : exists mt1, star (St pc sg (vin :: vs) fs (fst s) mt)
-                                  (St (pc + si (sizes (Some k) e1)) (rev ls ++ sg) (vin :: vs) fs (fst s1) mt1) /\
-                                observable mt1 = snd s1 /\ length ls = leaves k e1).
-    { destruct (is_list_of k e1) eqn:Hl1k.
-      - apply (IHi k e1 vin s ls s1 Hls Hfl Hshl Hsql cont pc j _ _ sg vs fs mt Pl Hl1 Ho).
-      - destruct Hls as (v1 & E1 & ->).
-        pose proof (placed_lk _ _ _ _ _ _ _ Hl1k Pl) as Pl'.
-        rewrite (sizes_lk k e1 Hl1k) in *.
-        destruct (IHe e1 vin s v1 s1 E1 Hfl Hshl false Hsql cont pc j _ _ sg vs fs mt Pl' Hl1 Ho)
-          as (vin1 & mt1 & St1 & Ho1 & Hv1).
-        rewrite (Hv1 (seq_ok_false_noseq _ Hsql)) in St1.
-        exists mt1. split; [exact St1 | split; auto]. rewrite leaves_not_list; auto. }
-    destruct Hleft as (mt1 & St1 & Ho1 & Hlen).
-    rewrite Nat.add_assoc in Hl.
-    destruct (IHe e2 vin s1 vr s' Er Hfr Hshr false Hsqr cont _ _ ob jb (rev ls ++ sg) vs fs mt1 Pr' Hl Ho1)
-      as (vin2 & mt2 & St2 & Ho2 & Hv2).
-    rewrite (Hv2 (seq_ok_false_noseq _ Hsqr)) in St2.
-    exists mt2. split; [|split; auto].
-    + rewrite rev_app_distr. cbn [rev app].
-      replace (pc + (si (sizes (Some k) e1) + si (sizes None e2))) with (pc + si (sizes (Some k) e1) + si (sizes None e2)) by lia.
-      eapply star_trans; [exact St1 | exact St2].
-    + rewrite app_length. cbn [length leaves]. rewrite same_kind_refl, Hlen, (leaves_not_list k e2 Hnl). lia.
-  - (* one item *)
-    assert (Hev : exists v, eval n e vin s = ODone v s' /\ items = [v]).
-    { destruct e; cbn [Eval.eval_items] in H;
-        try (inv_as H v1 s1 E1; injection H as <- <-; eauto).
-      destruct k, k0; cbn in Hlist; try discriminate;
-        inv_as H v1 s1 E1; injection H as <- <-; eauto. }
-    destruct Hev as (v & E & ->).
-    pose proof (placed_lk _ _ _ _ _ _ _ Hlist Hp) as Hp'.
-    rewrite (sizes_lk k e Hlist) in *.
-    destruct (IHe e vin s v s' E Hf Hsh false Hsq cont pc j ob jb sg vs fs mt Hp' Hl Ho)
-      as (vin1 & mt1 & St1 & Ho1 & Hv1).
-    rewrite (Hv1 (seq_ok_false_noseq _ Hsq)) in St1.
-    exists mt1. split; [exact St1 | split; auto]. rewrite leaves_not_list; auto.
-Qed.
-
-(* ---- else-chains ---- *)
-Lemma placedC_start_lt : forall cont e pc j aob ajb ob jb jj,
-  placedC true cont None e pc j aob ajb ob jb jj -> pc < length C.
-Proof.
-  intros cont e pc j aob ajb ob jb jj (A & _).
-  pose proof (len_inl sym_hash e true cont None pc j aob ajb ob jb jj) as L.
-  pose proof (ci_pos e true None) as Hp.
-  destruct (c_inl (compC sym_hash true cont None e pc j aob ajb ob jb jj)) as [|x l] eqn:Hf.
-  - cbn [length] in L. lia.
-  - specialize (A 0 x eq_refl). rewrite Nat.add_0_r in A. eapply nth_lt; eauto.
-Qed.
-
-Lemma lchain_cond_or_else : forall e, lchain e = true ->
-  (exists neg c a, e = ECond neg c a) \/ (exists l r, e = EElse l r /\ lchain l = true /\ is_cond r = true).
-Proof.
-  destruct e; cbn; intros H; try discriminate; eauto.
-  apply andb_prop in H. destruct H. right. eauto.
-Qed.
-
-Lemma sim_chain_step : SimChain (S n).
-Proof.
-  intros e vin s o s' H Hlc Hf Hsh Hsq cont pc j aob ajb ob jb jj pjoin sg vs fs mt Hp Hj Hpj Hl Ho.
-  destruct (lchain_cond_or_else e Hlc) as [(neg & c & a & ->) | (l & r & -> & Hll & Hcr)].
-  - (* one conditional item *)
-    cbn [frag shape_okC seq_ok] in *. and2 Hf Hfc Hfa. and2 Hsh Hshc Hsha. and2 Hsq Hsqc Hsqa.
-    destruct (placedC_ECond sym_hash C J cont None neg c a pc j aob ajb ob jb jj Hp) as (Pc & Pa & Hn1 & Hj1 & Hn2).
-    assert (Hsz : ci (csizes (ECond neg c a)) = si (sizes None c) + 1) by reflexivity.
-    rewrite Hsz in *.
-    cbn [Eval.eval_chain] in H. inv_as H vc s1 Ec.
-    destruct (IHe c vin s vc s1 Ec Hfc Hshc false Hsqc cont pc j _ _ sg vs fs mt Pc (nth_lt _ _ _ _ Hn1) Ho)
-      as (vin1 & mt1 & St1 & Ho1 & Hv1).
-    rewrite (Hv1 (seq_ok_false_noseq _ Hsqc)) in St1.
-    pose proof (placed_start_lt _ _ _ _ _ _ _ Pa) as Hob.
-    replace (pc + (si (sizes None c) + 1)) with (S (pc + si (sizes None c))) in * by lia.
-    assert (Hstep : Machine.step hstate host P (St (pc + si (sizes None c)) (vc :: sg) (vin :: vs) fs (fst s1) mt1) =
-            SRun hstate (St (if cond_holds neg vc then aob else S (pc + si (sizes None c))) sg (vin :: vs) fs (fst s1) mt1)).
-    { apply step_jump_if with (j := j + sji (sizes None c)); auto. }
-    destruct (cond_holds neg vc).
-    + inv_as H v s2 Ea. injection H as <- <-.
-      destruct (IHe a vin s1 v s2 Ea Hfa Hsha false Hsqa cont aob ajb _ _ sg vs fs mt1 Pa (nth_lt _ _ _ _ Hn2) Ho1)
-        as (vin2 & mt2 & St2 & Ho2 & Hv2).
-      rewrite (Hv2 (seq_ok_false_noseq _ Hsqa)) in St2.
-      exists mt2. split; auto.
-      eapply star_trans; [exact St1|]. eapply star_step; [exact Hstep|].
-      eapply star_trans; [exact St2|]. apply star_one.
-      apply step_jump_to with (j := jj); auto.
-    + injection H as <- <-.
-      exists mt1. split; auto.
-      eapply star_trans; [exact St1|]. apply star_one. exact Hstep.
-  - (* a chain followed by one more conditional *)
-    cbn [frag shape_okC seq_ok] in *. and2 Hf Hfl Hfr. and2 Hsh Hshl Hshr. and2 Hsq Hsql Hsqr.
-    destruct (placedC_EElse sym_hash C J cont None l r pc j aob ajb ob jb jj Hp) as (Pl & Pr).
-    assert (Hsz : ci (csizes (EElse l r)) = ci (csizes l) + ci (csizes r)) by reflexivity.
-    rewrite Hsz in *.
-    assert (Hlr : lchain r = true) by (destruct r; try discriminate; reflexivity).
-    cbn [Eval.eval_chain] in H. inv_as H ol s1 El.
-    pose proof (placedC_start_lt _ _ _ _ _ _ _ _ _ Pr) as Hl1.
-    destruct (IHc l vin s ol s1 El Hll Hfl Hshl Hsql cont pc j _ _ _ _ jj pjoin sg vs fs mt Pl Hj Hpj Hl1 Ho)
-      as (mt1 & Ho1 & Hres).
-    destruct ol as [v|].
-    + injection H as <- <-. exists mt1. split; auto.
-    + rewrite Nat.add_assoc in Hl.
-      destruct (IHc r vin s1 o s' H Hlr Hfr Hshr Hsqr cont _ _ aob ajb ob jb jj pjoin sg vs fs mt1 Pr Hj Hpj Hl Ho1)
-        as (mt2 & Ho2 & Hres2).
-      exists mt2. split; auto.
-      destruct o; rewrite ?Nat.add_assoc; (eapply star_trans; [exact Hres | exact Hres2]).
-Qed.
-
-Lemma lchain_cn : forall l, lchain l = true -> 1 <= cn (csizes l).
-Proof.
-  induction l; cbn [lchain]; intros H; try discriminate.
-  - unfold csizes. cbn [sizesC cn]. lia.
-  - apply andb_prop in H. destruct H as [H1 H2]. specialize (IHl1 H1).
-    unfold csizes in *. cbn [sizesC cn]. lia.
-Qed.
-
-Lemma plain_chain_eval : forall m r vin (s : est) o s',
-  plain r = true -> eval_chain (S m) r vin s = ODone o s' ->
-  exists v, eval m r vin s = ODone v s' /\ o = Some v.
-Proof.
-  intros m r vin s o s' Hpl H.
-  destruct r; try discriminate; cbn [Eval.eval_chain] in H;
-    apply obind_done in H; destruct H as (v & s1 & E & H); injection H as <- <-; eauto.
-Qed.
-
-(* ---- the head of an else-chain ---- *)
-Lemma sim_else : forall l r, Goal_eval (EElse l r).
-Proof.
-  intros l r vin s v s' H Hf Hsh b Hsq cont pc j ob jb sg vs fs mt Hp Hl Ho.
-  cbn [frag shape_okC seq_ok] in *. and2 Hf Hfl Hfr. and4 Hsh Hll Hpr Hshl Hshr. and2 Hsq Hsql Hsqr.
-  destruct (placed_EElse_head sym_hash C J cont None l r pc j ob jb Hp) as (Pl & Pr & Hjj).
-  assert (Hsz : si (sizes None (EElse l r)) = ci (csizes l) + ci (csizes r)) by reflexivity.
-  rewrite Hsz in *.
-  pose proof (lchain_cn l Hll) as Hcn.
-  assert (Hj : nth_error J (j + cji (csizes l) + cji (csizes r)) = Some (pc + ci (csizes l) + ci (csizes r))) by (apply Hjj; lia).
-  assert (Hpl : is_cond r = false /\ is_else r = false).
-  { unfold plain in Hpr. apply andb_prop in Hpr. destruct Hpr as [A B].
-    apply negb_true_iff in A. apply negb_true_iff in B. auto. }
-  destruct Hpl as [Hnc Hne].
-  pose proof (placedC_plain_item sym_hash C J cont r _ _ _ _ _ _ _ Hnc Hne Pr) as Pr'.
-  assert (Hcr : ci (csizes r) = si (sizes None r)).
-  { unfold csizes, sizes. rewrite (sizesC_plain_item r None Hnc Hne). reflexivity. }
-  rewrite Nat.add_assoc in Hl.
-  cbn [Eval.eval] in H. inv_as H o s1 Ech.
-  destruct n as [|n1]; [discriminate|].
-  cbn [Eval.eval_chain] in Ech. inv_as Ech ol s2 El.
-  destruct (IH n1 (le_S _ _ (le_n n1))) as (_ & _ & IHc1).
-  assert (Hl1 : pc + ci (csizes l) < length C) by (pose proof (placed_start_lt _ _ _ _ _ _ _ Pr'); lia).
-  destruct (IHc1 l vin s ol s2 El Hll Hfl Hshl Hsql cont pc j _ _ _ _ _ _ sg vs fs mt Pl Hj Hl Hl1 Ho)
-    as (mt1 & Ho1 & Hres).
-  destruct ol as [v1|].
-  - injection Ech as <- <-. injection H as <- <-.
-    exists vin, mt1. split; [|split; auto].
-    rewrite Nat.add_assoc. exact Hres.
-  - destruct n1 as [|n2]; [discriminate|].
-    destruct (plain_chain_eval n2 r vin s2 o s1 Hpr Ech) as (v2 & Er & ->).
-    injection H as <- <-.
-    assert (Hle : n2 <= S (S n2)) by lia.
-    destruct (IH n2 Hle) as (IHe2 & _ & _).
-    rewrite Hcr in *.
-    destruct (IHe2 r vin s2 v2 s1 Er Hfr Hshr false Hsqr cont _ _ _ _ sg vs fs mt1 Pr' Hl Ho1)
-      as (vin2 & mt2 & St2 & Ho2 & Hv2).
-    rewrite (Hv2 (seq_ok_false_noseq _ Hsqr)) in St2.
-    exists vin, mt2. split; [|split; auto].
-    rewrite Nat.add_assoc. eapply star_trans; [exact Hres | exact St2].
-Qed.
-
-(* ---- all constructs ---- *)
+(* ---- expressions, items, chains ---- *)
 Lemma sim_eval_step : SimEval (S n).
 Proof.
-  intros e. destruct e.
-  - intros vin s v s' H _ _ _ _. apply (sim_leaf (ELit l) I vin s v s' H).
-  - intros vin s v s' H _ _ _ _. apply (sim_leaf EValue I vin s v s' H).
-  - intros vin s v s' H _ _ _ _. apply (sim_leaf (EIdent name) I vin s v s' H).
-  - apply sim_un.
-  - destruct o; try (apply sim_bin; discriminate). apply sim_pair.
-  - apply (sim_logical true).
-  - apply (sim_logical false).
-  - apply sim_list.
-  - apply sim_group.
-  - apply sim_cond.
-  - apply sim_else.
-  - apply sim_seq.
-  - apply sim_side.
-  - intros vin s v s' H Hf. discriminate.
-  - intros vin s v s' H Hf. discriminate.
+  intros e vin s o E Hf Hsh b Hsq cont pcont pc j ob jb sg vs fs mt Hp Hcj Hcp Hl Ho.
+  destruct o as [v s' | v s' | w | ]; try exact I.
+  - exact (sim_eval_done sym_hash hstate host Hdef pbodies P n cont pcont Hcp
+             (ihd cont pcont Hcj Hcp) (ihid cont pcont Hcj Hcp) (ihcd cont pcont Hcj Hcp) (ihad)
+             e vin s v s' E Hf Hsh b Hsq pc j ob jb sg vs fs mt Hp Hl Ho).
+  - exact (sim_eval_restart sym_hash hstate host pbodies P n cont pcont Hcj Hcp
+             (ihd cont pcont Hcj Hcp) (ihid cont pcont Hcj Hcp) (ihcd cont pcont Hcj Hcp)
+             (ihr cont pcont Hcj Hcp) (ihir cont pcont Hcj Hcp) (ihcr cont pcont Hcj Hcp)
+             e vin s v s' E Hf Hsh b Hsq pc j ob jb sg vs fs mt Hp Hl Ho).
+Qed.
+
+Lemma sim_items_step' : SimItems (S n).
+Proof.
+  intros k e vin s o E Hf Hsh Hsq cont pcont pc j ob jb sg vs fs mt Hp Hcj Hcp Hl Ho.
+  pose proof (ihd cont pcont Hcj Hcp) as D. pose proof (ihid cont pcont Hcj Hcp) as Di.
+  pose proof (ihcd cont pcont Hcj Hcp) as Dc. pose proof (ihr cont pcont Hcj Hcp) as R.
+  pose proof (ihir cont pcont Hcj Hcp) as Ri. pose proof (ihcr cont pcont Hcj Hcp) as Rc.
+  destruct o as [items s' | v s' | w | ]; try exact I.
+  - eapply (sim_items_step sym_hash hstate host); eauto.
+  - eapply (rs_items sym_hash hstate host); eauto.
+Qed.
+
+Lemma sim_chain_step' : SimChain (S n).
+Proof.
+  intros e vin s o E Hlc Hf Hsh Hsq cont pcont pc j aob ajb ob jb jj pjoin sg vs fs mt Hp Hcj Hcp Hj Hpj Hl Ho.
+  pose proof (ihd cont pcont Hcj Hcp) as D. pose proof (ihid cont pcont Hcj Hcp) as Di.
+  pose proof (ihcd cont pcont Hcj Hcp) as Dc. pose proof (ihr cont pcont Hcj Hcp) as R.
+  pose proof (ihir cont pcont Hcj Hcp) as Ri. pose proof (ihcr cont pcont Hcj Hcp) as Rc.
+  destruct o as [oo s' | v s' | w | ]; try exact I.
+  - assert (X : exists mt', observable mt' = snd s' /\
+      match oo with
+      | None => star (St pc sg (vin :: vs) fs (fst s) mt) (St (pc + ci (csizes e)) sg (vin :: vs) fs (fst s') mt')
+      | Some v => star (St pc sg (vin :: vs) fs (fst s) mt) (St pjoin (v :: sg) (vin :: vs) fs (fst s') mt')
+      end).
+    { eapply (sim_chain_step sym_hash hstate host); eauto. }
+    destruct oo; exact X.
+  - eapply (rs_chain sym_hash hstate host); eauto.
+Qed.
+
+(* ---- apply ---- *)
+Lemma sim_apply_step : SimApply (S n).
+Proof.
+  intros f x s v s' H ea pcx sg vs fs mt Hx Hn Hl Ho.
+  change (if ea then I_EmptyApply else I_Apply) with (apply_instr ea) in Hn.
+  change (if ea then f :: sg else x :: f :: sg) with (apply_regs ea f x sg).
+  destruct f; cbn [Eval.apply_val] in H;
+    try (unfold lift in H;
+         match type of H with context [prim_apply_data ?a ?b] =>
+           destruct (prim_apply_data a b) as [[r|] w] eqn:Hpd end; [|discriminate];
+         injection H as <- <-;
+         match type of Hpd with prim_apply_data ?a _ = _ =>
+           destruct (apply_data hstate host Hdef P (apply_instr ea) a x r w pcx sg vs fs (fst s) mt I Hpd) as (t' & Ea & Ot) end;
+         exists t'; split; [|congruence];
+         apply star_one;
+         rewrite (step_apply_gen hstate host P ea _ x pcx sg vs fs (fst s) mt _ (S pcx) Hx Hn Ea Hl); reflexivity).
+  - (* an expression value: its body runs *)
+    destruct (find_body pbodies body) as [b|] eqn:Hfb; [|discriminate].
+    destruct (Hbodies body b Hfb) as (pcb & jb1 & ob1 & jb2 & Hj & Hp & Hend & Hf & Hsh & Hsq).
+    assert (Hlb : pcb + si (sizes None b) < length C) by (eapply SimDone.nth_lt; eauto).
+    assert (Hpcb : pcb < length C) by lia.
+    pose proof (apply_expr hstate host P (apply_instr ea) body x pcb pcx sg vs fs (fst s) mt Hj) as Ea.
+    pose proof (step_apply_gen hstate host P ea _ x pcx sg vs fs (fst s) mt _ pcb Hx Hn Ea Hpcb) as Hs1.
+    cbn [regs vals frames hs tr] in Hs1.
+    destruct (IH n (le_n n)) as (_ & _ & _ & _ & HB).
+    destruct (HB b x s v s' H Hf Hsh Hsq (N.to_nat body) pcb jb1 ob1 jb2 sg vs ((S pcx, sg) :: fs) mt Hp Hj Hlb Ho)
+      as (junk & vin' & mt' & Hst & Ho').
+    exists mt'. split; auto.
+    eapply star_step; [exact Hs1|]. eapply star_trans; [exact Hst|].
+    apply star_one. apply step_end_frame; auto.
+  - (* an external value: the host's apply *)
+    unfold call_host in H. destruct (host (fst s) (HApply n0 x)) as [h' r] eqn:Hh.
+    injection H as <- <-. cbn [fst snd].
+    pose proof (apply_ext hstate host P (apply_instr ea) n0 x pcx sg vs fs (fst s) mt) as Ea.
+    rewrite Hh in Ea. cbn [fst snd] in Ea.
+    exists (mt ++ [HApply n0 x]). split.
+    + apply star_one.
+      rewrite (step_apply_gen hstate host P ea _ x pcx sg vs fs (fst s) mt _ (S pcx) Hx Hn Ea Hl). reflexivity.
+    + rewrite observable_app, Ho. reflexivity.
+Qed.
+
+(* ---- an expression body ---- *)
+Lemma sim_body_step : SimBody (S n).
+Proof.
+  intros b vin s v s' H Hf Hsh Hsq cont pcb j ob jb sg vs fs mt Hp Hj Hl Ho.
+  rewrite run_body_S' in H.
+  assert (Hpcb : pcb < length C) by lia.
+  destruct (IH n (le_n n)) as (HE & _ & _ & _ & HB).
+  destruct (Eval.eval sym_hash hstate host pbodies n b vin s) as [v0 s0 | v1 s1 | w | ] eqn:Ev; try discriminate.
+  - injection H as -> ->.
+    destruct (HE b vin s (ODone v s') Ev Hf Hsh true Hsq cont pcb pcb j ob jb sg vs fs mt Hp Hj Hpcb Hl Ho)
+      as (vin' & mt' & Hst & Ho' & _).
+    exists [], vin', mt'. split; auto.
+  - destruct (HE b vin s (ORestart v1 s1) Ev Hf Hsh true Hsq cont pcb pcb j ob jb sg vs fs mt Hp Hj Hpcb Hl Ho)
+      as (junk1 & mt1 & Hst1 & Ho1).
+    destruct (HB b v1 s1 v s' H Hf Hsh Hsq cont pcb j ob jb (junk1 ++ sg) vs fs mt1 Hp Hj Hl Ho1)
+      as (junk2 & vin' & mt2 & Hst2 & Ho2).
+    exists (junk2 ++ junk1), vin', mt2. split; auto.
+    rewrite <- app_assoc. eapply star_trans; [exact Hst1 | exact Hst2].
+Qed.
+
+Lemma sim_all_step : SimAll (S n).
+Proof.
+  repeat split.
+  - apply sim_eval_step.
+  - apply sim_items_step'.
+  - apply sim_chain_step'.
+  - apply sim_apply_step.
+  - apply sim_body_step.
 Qed.
 
 End SimStep.
